@@ -14,7 +14,7 @@ import (
 	"google.golang.org/protobuf/types/known/timestamppb"
 	"google.golang.org/protobuf/types/known/wrapperspb"
 
-	"verif/harness/internal/tr"
+	"verif/harness/tr"
 )
 
 var errMarshal = errors.New("stub marshal failure")
